@@ -1023,3 +1023,217 @@ Lemma expanders_null_crash_lemma :
 Proof.
   exists (mkArgs 10 30 1 4 false false 200 0 0 0 0 None). eexists. vm_compute. reflexivity.
 Qed.
+
+(* ================================================================== *)
+(* 7. P threads starting up on the user stack, ANY interleaving of their locked sections, when no alignment
+      fix-up can occur (buffer end 8-aligned, element size a multiple of 8 bytes): the blocks of different threads
+      never overlap and stay between the HEAD part and the end of the buffer *)
+Section Threads.
+Variable c : cfg.
+Variables n w ba L T1 : Z.
+Hypothesis Hend : (ba + L) mod 8 = 0.
+Hypothesis Hd8 : work_dsize c n w mod 8 = 0.
+Hypothesis Hi0 : 0 <= work_isize n w.
+Hypothesis Hd0 : 0 <= work_dsize c n w.
+Hypothesis HT : 0 <= T1 <= L.
+
+Lemma work_isize_mod8 : work_isize n w mod 8 = 0.
+Proof.
+  unfold work_isize, iword, c_NO_MARKER.
+  replace ((2 * w + 5 + 3) * n * 4) with (((w + 4) * n) * 8) by ring. apply Z.mod_mul. lia.
+Qed.
+
+Lemma nth_error_upd_same : forall (A : Type) (l : list A) i x t, nth_error l i = Some t -> nth_error (upd l i x) i = Some x.
+Proof. induction l as [|h tl IH]; intros [|i] x t H; simpl in *; try discriminate; auto. eapply IH; eassumption. Qed.
+
+Lemma nth_error_upd_other : forall (A : Type) (l : list A) i j x, i <> j -> nth_error (upd l i x) j = nth_error l j.
+Proof.
+  induction l as [|h tl IH]; intros [|i] [|j] x H; simpl; auto; try congruence;
+    try (apply IH; congruence).
+Qed.
+
+(* the invariant *)
+Definition tinv (ts : list tstate) (s : stack) : Prop :=
+  s_size s = L /\ s_top1 s = T1 /\ T1 <= s_top2 s <= L /\ s_used s = s_top1 s + (s_size s - s_top2 s) /\
+  (ba + s_top2 s) mod 8 = 0 /\
+  (forall i t, nth_error ts i = Some t -> (forall iw dw e, t <> TGotD iw dw e) /\
+                                          Forall (block_in (s_top2 s) L) (thread_blocks c n w t) /\
+                                          (forall iw dw, t = TReady iw dw -> disjoint (iw, work_isize n w) (dw, work_dsize c n w))) /\
+  (forall i j ti tj bi bj, i <> j -> nth_error ts i = Some ti -> nth_error ts j = Some tj ->
+                           In bi (thread_blocks c n w ti) -> In bj (thread_blocks c n w tj) -> disjoint bi bj).
+
+Lemma mod8_sub : forall a b, a mod 8 = 0 -> b mod 8 = 0 -> (a - b) mod 8 = 0.
+Proof.
+  intros a b Ha Hb. rewrite Zminus_mod, Ha, Hb. reflexivity.
+Qed.
+
+Lemma block_in_weaken : forall lo lo' hi b, lo' <= lo -> block_in lo hi b -> block_in lo' hi b.
+Proof. unfold block_in; intros; lia. Qed.
+
+Lemma init_step_inv : forall ts s i t t' s',
+  tinv ts s -> nth_error ts i = Some t -> init_step c n w ba t s = (t', s') -> tinv (upd ts i t') s'.
+Proof.
+  intros ts s i t t' s' (Hsz & Ht1 & Ht2 & Hu & Hal & Hper & Hdis) Hi Hstep.
+  destruct (Hper i t Hi) as (HnoD & Hblk & Hrd).
+  pose proof work_isize_mod8 as Hi8.
+  (* a generic way to re-establish the invariant when thread i gets a new block list bl' inside [top2', L)
+     whose elements are below the old top2 *)
+  assert (Hgen : forall top2' used' bl',
+            s' = mkStack L used' T1 top2' -> T1 <= top2' <= s_top2 s -> used' = T1 + (L - top2') -> (ba + top2') mod 8 = 0 ->
+            thread_blocks c n w t' = bl' ->
+            (forall iw dw e, t' <> TGotD iw dw e) ->
+            (forall b, In b bl' -> In b (thread_blocks c n w t) \/ (top2' <= fst b /\ fst b + snd b <= s_top2 s)) ->
+            (forall iw dw, t' = TReady iw dw -> disjoint (iw, work_isize n w) (dw, work_dsize c n w)) ->
+            tinv (upd ts i t') s').
+  { intros top2' used' bl' -> Hr Hus Hal' Hbl Hnd Hnew Hrd'.
+    unfold tinv; simpl.
+    split; [reflexivity|]. split; [reflexivity|]. split; [lia|]. split; [lia|]. split; [assumption|]. split.
+    - intros j tj Hj. destruct (Nat.eq_dec i j) as [<-|Hne].
+      + rewrite (nth_error_upd_same _ ts i t' t Hi) in Hj. inversion Hj; subst tj.
+        split; [assumption|]. split; [|assumption].
+        rewrite Hbl. apply Forall_forall. intros b Hb. destruct (Hnew b Hb) as [Hold|[Hlo Hhi]].
+        * rewrite Forall_forall in Hblk. apply (block_in_weaken (s_top2 s)); [lia|]. apply Hblk; assumption.
+        * unfold block_in. lia.
+      + rewrite nth_error_upd_other in Hj by assumption.
+        destruct (Hper j tj Hj) as (Hn1 & Hb1 & Hr1). split; [assumption|]. split; [|assumption].
+        eapply Forall_impl; [|exact Hb1]. intros b. apply block_in_weaken. lia.
+    - intros j k tj tk bj bk Hjk Hj Hk Hbj Hbk.
+      destruct (Nat.eq_dec i j) as [<-|Hnj]; destruct (Nat.eq_dec i k) as [<-|Hnk]; try congruence.
+      + rewrite (nth_error_upd_same _ ts i t' t Hi) in Hj. inversion Hj; subst tj.
+        rewrite nth_error_upd_other in Hk by assumption. rewrite Hbl in Hbj.
+        destruct (Hnew bj Hbj) as [Hold|[Hlo Hhi]].
+        * eapply (Hdis i k); eassumption.
+        * destruct (Hper k tk Hk) as (_ & Hbk' & _). rewrite Forall_forall in Hbk'. specialize (Hbk' _ Hbk).
+          unfold block_in, disjoint in *. lia.
+      + rewrite (nth_error_upd_same _ ts i t' t Hi) in Hk. inversion Hk; subst tk.
+        rewrite nth_error_upd_other in Hj by assumption. rewrite Hbl in Hbk.
+        destruct (Hnew bk Hbk) as [Hold|[Hlo Hhi]].
+        * eapply (Hdis j i); eassumption || congruence.
+        * destruct (Hper j tj Hj) as (_ & Hbj' & _). rewrite Forall_forall in Hbj'. specialize (Hbj' _ Hbj).
+          unfold block_in, disjoint in *. lia.
+      + rewrite nth_error_upd_other in Hj, Hk by assumption. eapply (Hdis j k); eassumption. }
+  (* the unchanged-stack case *)
+  assert (Hsame : t' = t -> s' = s -> tinv (upd ts i t') s').
+  { intros -> ->. destruct s as [sz us t1 t2]; simpl in *. subst sz t1.
+    apply (Hgen t2 us (thread_blocks c n w t)); auto; try lia. }
+  destruct t as [|iw|iw dw e|iw dw|code|]; simpl in Hstep.
+  - (* TStart *)
+    unfold user_malloc, stack_full in Hstep.
+    destruct (s_size s <=? work_isize n w + s_used s) eqn:E.
+    + inversion Hstep; subst t' s'. 
+      destruct s as [sz us t1 t2]; simpl in *. subst sz t1.
+      apply (Hgen t2 us []); auto; try lia; try discriminate; try (intros b []).
+    + apply Z.leb_gt in E. inversion Hstep; subst t' s'.
+      apply (Hgen (s_top2 s - work_isize n w) (s_used s + work_isize n w) [(s_top2 s - work_isize n w, work_isize n w)]);
+        try (rewrite Hsz, Ht1; reflexivity); try lia; try discriminate.
+      * replace (ba + (s_top2 s - work_isize n w)) with ((ba + s_top2 s) - work_isize n w) by lia. apply mod8_sub; assumption.
+      * reflexivity.
+      * intros b [<-|[]]. right. simpl. lia.
+  - (* TGotI *)
+    unfold user_malloc, stack_full in Hstep.
+    destruct (s_size s <=? work_dsize c n w + s_used s) eqn:E.
+    + inversion Hstep; subst t' s'.
+      destruct s as [sz us t1 t2]; simpl in *. subst sz t1.
+      apply (Hgen t2 us []); auto; try lia; try discriminate; try (intros b []).
+    + apply Z.leb_gt in E.
+      assert (Hal2 : misalign ba (s_top2 s - work_dsize c n w) = 0).
+      { unfold misalign. replace (ba + (s_top2 s - work_dsize c n w)) with ((ba + s_top2 s) - work_dsize c n w) by lia.
+        apply mod8_sub; assumption. }
+      rewrite Hal2 in Hstep. simpl in Hstep. inversion Hstep; subst t' s'.
+      simpl in Hblk. inversion Hblk as [|? ? Hb1 _]; subst. unfold block_in in Hb1; simpl in Hb1.
+      apply (Hgen (s_top2 s - work_dsize c n w) (s_used s + work_dsize c n w)
+                  [(iw, work_isize n w); (s_top2 s - work_dsize c n w, work_dsize c n w)]);
+        try (rewrite Hsz, Ht1; reflexivity); try lia; try discriminate.
+      * exact Hal2.
+      * reflexivity.
+      * intros b [<-|[<-|[]]]; [left; simpl; auto|right; simpl; lia].
+      * intros iw' dw' Heq. inversion Heq; subst. unfold disjoint; simpl. lia.
+  - exfalso. eapply HnoD. reflexivity.
+  - inversion Hstep; subst. apply Hsame; reflexivity.
+  - inversion Hstep; subst. apply Hsame; reflexivity.
+  - inversion Hstep; subst. apply Hsame; reflexivity.
+Qed.
+
+Lemma run_init_inv : forall sched ts s, tinv ts s -> let '(ts', s') := run_init c n w ba sched ts s in tinv ts' s'.
+Proof.
+  induction sched as [|i rest IH]; intros ts s Hinv; simpl; [assumption|].
+  destruct (nth_error ts i) as [t|] eqn:E; [|apply IH; assumption].
+  destruct (init_step c n w ba t s) as [t' s'] eqn:Es.
+  apply IH. eapply init_step_inv; eassumption.
+Qed.
+
+Lemma tinv_start : forall P, tinv (repeat TStart P) (mkStack L T1 T1 L).
+Proof.
+  intros P. unfold tinv; simpl. repeat split; try lia; try assumption.
+  - intros iw dw e Heq. apply nth_error_In in H. apply repeat_spec in H. congruence.
+  - apply nth_error_In in H. apply repeat_spec in H. subst t. simpl. constructor.
+  - intros iw dw Heq. apply nth_error_In in H. apply repeat_spec in H. congruence.
+  - intros i j ti tj bi bj _ Hi _ Hbi _. apply nth_error_In in Hi. apply repeat_spec in Hi. subst ti. destruct Hbi.
+Qed.
+
+Lemma workinit_threads_lemma : forall P sched,
+  let '(ts, s) := run_init c n w ba sched (repeat TStart P) (mkStack L T1 T1 L) in
+  (forall i t b, nth_error ts i = Some t -> In b (thread_blocks c n w t) -> block_in T1 L b) /\
+  (forall i j ti tj bi bj, i <> j -> nth_error ts i = Some ti -> nth_error ts j = Some tj ->
+        In bi (thread_blocks c n w ti) -> In bj (thread_blocks c n w tj) -> disjoint bi bj) /\
+  (forall i iw dw, nth_error ts i = Some (TReady iw dw) -> disjoint (iw, work_isize n w) (dw, work_dsize c n w)) /\
+  s_used s = s_top1 s + (s_size s - s_top2 s) /\ s_top1 s = T1 /\ T1 <= s_top2 s <= L.
+Proof.
+  intros P sched.
+  pose proof (run_init_inv sched _ _ (tinv_start P)) as H.
+  destruct (run_init c n w ba sched (repeat TStart P) (mkStack L T1 T1 L)) as [ts s].
+  destruct H as (Hsz & Ht1 & Ht2 & Hu & Hal & Hper & Hdis).
+  repeat split; try lia; try assumption.
+  - destruct (Hper i t H) as (_ & Hb & _). rewrite Forall_forall in Hb. specialize (Hb _ H0). unfold block_in in *. lia.
+  - destruct (Hper i t H) as (_ & Hb & _). rewrite Forall_forall in Hb. specialize (Hb _ H0). unfold block_in in *. lia.
+  - intros i iw dw Hi. destruct (Hper i _ Hi) as (_ & _ & Hr). apply Hr. reflexivity.
+Qed.
+
+End Threads.
+
+(* non-vacuity: three threads, interleaved start-up, aligned buffer *)
+Example workinit_threads_example :
+  run_init small_cfg 3 1 0 [0; 1; 2; 1; 0; 2; 2]%nat [TStart; TStart; TStart] (mkStack 10000 264 264 10000)
+  = ([TReady 9880 9496; TReady 9760 9568; TReady 9640 9424], mkStack 10000 840 264 9424).
+Proof. vm_compute. reflexivity. Qed.
+
+(* ================================================================== *)
+(* 8. the thread-level transition system and the sequential model of p?gstrf_WorkInit (the one that is compared
+      with the C code on every run) agree: a thread that runs its locked sections without being interleaved does
+      exactly what work_init does *)
+Definition run3 (c : cfg) (n w ba : Z) (s : stack) : tstate * stack :=
+  let '(t1, s1) := thread_step c n w ba TStart s in
+  let '(t2, s2) := thread_step c n w ba t1 s1 in
+  match t2 with
+  | TGotD _ _ _ => thread_step c n w ba t2 s2
+  | _ => (t2, s2)
+  end.
+
+Lemma thread_steps_refine_work_init : forall fail c n w m,
+  m_space m = USER ->
+  exists r iw dw m',
+    work_init fail c n w m = Ok (r, iw, dw) m' /\
+    m_stack m' = snd (run3 c n w (m_ba m) (m_stack m)) /\
+    match fst (run3 c n w (m_ba m) (m_stack m)) with
+    | TReady i d => r = 0 /\ iw = POff i /\ dw = POff d
+    | TFailed code => r = code /\ dw = PNull
+    | _ => False
+    end.
+Proof.
+  intros fail c n w m Hsp. unfold work_init, run3. rewrite Hsp.
+  unfold umalloc. cbn [thread_step].
+  destruct (user_malloc (work_isize n w) TAIL (m_stack m)) as [[off|] s1] eqn:E1.
+  - cbn [is_null]. cbn [thread_step m_stack set_stack add_log].
+    destruct (user_malloc (work_dsize c n w) TAIL s1) as [[off2|] s2] eqn:E2.
+    + cbn [m_ba set_stack add_log m_stack].
+      destruct (misalign (m_ba m) off2 =? 0) eqn:Em; cbn [negb].
+      * eexists; eexists; eexists; eexists. split; [reflexivity|]. cbn [fst snd m_stack set_stack add_log]. auto.
+      * cbn [thread_step]. eexists; eexists; eexists; eexists. split; [reflexivity|].
+        cbn [fst snd m_stack set_stack add_log]. auto.
+    + eexists; eexists; eexists; eexists. split; [reflexivity|]. cbn [fst snd m_stack set_stack add_log].
+      unfold user_malloc in E2. destruct (stack_full _ s1); [|destruct (s_top2 s1 - _); discriminate].
+      inversion E2; subst. auto.
+  - cbn [is_null]. eexists; eexists; eexists; eexists. split; [reflexivity|]. cbn [fst snd thread_step].
+    unfold user_malloc in E1. destruct (stack_full _ (m_stack m)); [|discriminate].
+    inversion E1; subst. auto.
+Qed.
